@@ -73,7 +73,8 @@ class DelayFixed(TimeDelayAdapter):
     def with_delay(self, time):
         off = time - self.delay
         if off < self.initial_time:
-            return self.initial_time
+            # never request data newer than originally requested
+            return min(time, self.initial_time)
 
         return off
 
@@ -194,9 +195,10 @@ class DelayToPull(TimeDelayAdapter, NoBranchAdapter):
         t = self._pulls[0]
         off = t - self.additional_delay
         if off < self.initial_time:
-            return self.initial_time
+            off = self.initial_time
 
-        return off
+        # never request data newer than originally requested
+        return min(time, off)
 
     def _pulled(self, time):
         self._pulls.append(time)
